@@ -55,12 +55,12 @@ class C16(engine.Check):
 
 
 def specs(tier: str):
-    sp = families.c01_specs(tier, kmode="all", terminals=T_C16, max_inputs=45 if tier == "quick" else 130)
+    sp = families.c01_specs(tier, kmode="all", terminals=T_C16, max_inputs=45 if tier == "quick" else 130, lean=True)
     return sp + [x for x in families.skip_specs("all", tier) if True]
 
 
 def run(tier: str) -> int:
-    b = families.C01_BOUNDS[tier]
+    b = families.c01_bounds(tier, lean=True)
     return gc.run_model_check(
         C16(), specs(tier), tier, "exploration",
         bounds=[{"top": [{"n": n, "modifiers": list(m), "trivia": list(t)} for n, m, t in b["top"]], "contexts": [{"hole_size": h, "trivia": list(t)} for h, t in b["ctx"]],
